@@ -255,25 +255,25 @@ func c13Carries(p *Prog, v ssa.Value, bit int64, seen map[ssa.Value]bool) bool {
 }
 
 var c13Bracketed = ExcTable{
-	"js_printer.(*printer).printExpr ESpread.Value @LComma":                             "a spread element only occurs as an array item, a call/new argument or an object property, i.e. between [ ], ( ) or { } printed by its parent",
-	"js_printer.(*printer).printExpr EJSXElement.property.ValueOrNil @LComma":           "preserved JSX: `{...expr}` attribute spread, between braces",
-	"js_printer.(*printer).printExpr EJSXElement.property.ValueOrNil @LComma #2":        "preserved JSX: `{...expr}` attribute spread, between braces",
-	"js_printer.(*printer).printExpr EJSXElement.property.Key @LComma":                  "preserved JSX: computed key emulation `{...{[key]: value}}`, between brackets",
-	"js_printer.(*printer).printExpr EJSXElement.property.ValueOrNil @LComma #3":        "preserved JSX: value inside `{...{[key]: value}}`, between braces",
-	"js_printer.(*printer).printExpr EJSXElement.property.ValueOrNil @LLowest":          "preserved JSX: the attribute value is type-tested to be a JSX element, which prints as <…> and cannot expose an `in` operator",
-	"js_printer.(*printer).printExpr EJSXElement.property.ValueOrNil @LComma #4":        "preserved JSX: attribute value `={expr}`, between braces",
-	"js_printer.(*printer).printExpr EJSXElement.childOrNil @LLowest":                   "preserved JSX: the child is type-tested to be a JSX element",
-	"js_printer.(*printer).printExpr EJSXElement.childOrNil @LComma":                    "preserved JSX: expression child `{expr}`, between braces",
-	"js_printer.(*printer).printExpr ENew.Args[] @LComma":                               "constructor arguments, between parentheses",
-	"js_printer.(*printer).printExpr ECall.Args[] @LComma":                              "call arguments, between parentheses",
-	"js_printer.(*printer).printExpr EImportCall.Expr @LComma":                          "import(…) argument, between parentheses",
-	"js_printer.(*printer).printExpr EImportCall.OptionsOrNil @LComma":                  "import(…) second argument, between parentheses",
-	"js_printer.(*printer).printExpr EIndex.Index @LLowest":                             "index expression, between [ ]",
-	"js_printer.(*printer).printExpr EIf.Yes @LYield":                                   "the middle operand of ?: is AssignmentExpression[+In] in the grammar (ECMA-262 §13.14): `in` is allowed there even inside a for initialiser",
-	"js_printer.(*printer).printExpr EArray.item @LComma":                               "array literal items, between [ ]",
-	"js_printer.(*printer).printExpr ETemplate.TagOrNil @LLowest":                       "tag printed as `(0, tag)`, between parentheses",
-	"js_printer.(*printer).printExpr ETemplate.TagOrNil @LLowest #2":                    "optional-chain tag printed as `(tag)`, between parentheses",
-	"js_printer.(*printer).printExpr ETemplate.part.Value @LLowest":                     "template substitution, between ${ }",
+	"js_printer.(*printer).printExpr ESpread.Value @LComma":                      "a spread element only occurs as an array item, a call/new argument or an object property, i.e. between [ ], ( ) or { } printed by its parent",
+	"js_printer.(*printer).printExpr EJSXElement.property.ValueOrNil @LComma":    "preserved JSX: `{...expr}` attribute spread, between braces",
+	"js_printer.(*printer).printExpr EJSXElement.property.ValueOrNil @LComma #2": "preserved JSX: `{...expr}` attribute spread, between braces",
+	"js_printer.(*printer).printExpr EJSXElement.property.Key @LComma":           "preserved JSX: computed key emulation `{...{[key]: value}}`, between brackets",
+	"js_printer.(*printer).printExpr EJSXElement.property.ValueOrNil @LComma #3": "preserved JSX: value inside `{...{[key]: value}}`, between braces",
+	"js_printer.(*printer).printExpr EJSXElement.property.ValueOrNil @LLowest":   "preserved JSX: the attribute value is type-tested to be a JSX element, which prints as <…> and cannot expose an `in` operator",
+	"js_printer.(*printer).printExpr EJSXElement.property.ValueOrNil @LComma #4": "preserved JSX: attribute value `={expr}`, between braces",
+	"js_printer.(*printer).printExpr EJSXElement.childOrNil @LLowest":            "preserved JSX: the child is type-tested to be a JSX element",
+	"js_printer.(*printer).printExpr EJSXElement.childOrNil @LComma":             "preserved JSX: expression child `{expr}`, between braces",
+	"js_printer.(*printer).printExpr ENew.Args[] @LComma":                        "constructor arguments, between parentheses",
+	"js_printer.(*printer).printExpr ECall.Args[] @LComma":                       "call arguments, between parentheses",
+	"js_printer.(*printer).printExpr EImportCall.Expr @LComma":                   "import(…) argument, between parentheses",
+	"js_printer.(*printer).printExpr EImportCall.OptionsOrNil @LComma":           "import(…) second argument, between parentheses",
+	"js_printer.(*printer).printExpr EIndex.Index @LLowest":                      "index expression, between [ ]",
+	"js_printer.(*printer).printExpr EIf.Yes @LYield":                            "the middle operand of ?: is AssignmentExpression[+In] in the grammar (ECMA-262 §13.14): `in` is allowed there even inside a for initialiser",
+	"js_printer.(*printer).printExpr EArray.item @LComma":                        "array literal items, between [ ]",
+	"js_printer.(*printer).printExpr ETemplate.TagOrNil @LLowest":                "tag printed as `(0, tag)`, between parentheses",
+	"js_printer.(*printer).printExpr ETemplate.TagOrNil @LLowest #2":             "optional-chain tag printed as `(tag)`, between parentheses",
+	"js_printer.(*printer).printExpr ETemplate.part.Value @LLowest":              "template substitution, between ${ }",
 }
 
 func c13InContainment(p *Prog) *RuleResult {
@@ -308,11 +308,13 @@ func c13InContainment(p *Prog) *RuleResult {
 //
 // Some tokens may not come first in certain positions because the grammar gives them another
 // meaning there (ECMA-262 lookahead restrictions):
-//   expression statement:  `{`, `function`, `async function`, `class`, `let [`
-//   export default:        `function`, `async function`, `class`
-//   concise arrow body:    `{`
-//   for-of head:           `let`, `async of`
-//   for / for-in head:     `let [`
+//
+//	expression statement:  `{`, `function`, `async function`, `class`, `let [`
+//	export default:        `function`, `async function`, `class`
+//	concise arrow body:    `{`
+//	for-of head:           `let`, `async of`
+//	for / for-in head:     `let [`
+//
 // The printer records where such a position starts (stmtStart, exportDefaultStart, arrowExprStart,
 // forOfInitStart, forInitStart) and the printing code of each node kind that begins with one of
 // those tokens compares the current output length with the marker and adds parentheses. Rule: the
